@@ -499,7 +499,7 @@ def dec(x):
     return format(Decimal(x).normalize(), 'f') if 'e' not in str(x).lower() else str(x)
 
 
-SLOPES = ['0.04', '0.0625', '0.1', '0.16', '0.2', '0.25', '0.26', '0.5', '0.8', '1', '1.5', '2', '0.037', '0.128']
+SLOPES = ['0.04', '0.0625', '0.1', '0.16', '0.2', '0.25', '0.26', '0.5', '0.8', '1', '1.5', '2', '0.037', '0.128', '10', '37.4']      # the last two: steep slopes (exp(-a*sp) under- / overflows a double for large offsets)
 
 
 def lit_or_const(r, case, text, p=0.3):
